@@ -257,11 +257,14 @@ class ConvexPolyhedron(GeoBody):
         self.segment_set = set()
         self.pyramid_set = set()
 
+        # number of faces every edge belongs to
+        segment_count = dict()
         for convex_polygon in self.convex_polygons:
             for point in convex_polygon.points:
                 self.point_set.add(point)
             for segment in convex_polygon.segments():
                 self.segment_set.add(segment)
+                segment_count[segment] = segment_count.get(segment, 0) + 1
 
         self.center_point = self._get_center_point()
 
@@ -278,6 +281,12 @@ class ConvexPolyhedron(GeoBody):
             )
         if not self._check_normal():
             raise ValueError("Check Normal Fails For The Convex Polyhedron")
+        # In a closed polyhedron every edge is shared by exactly two faces.
+        # Euler's formula alone can be satisfied by a face set with a gap.
+        if any(count != 2 for count in segment_count.values()):
+            raise ValueError(
+                "Every edge must belong to exactly two faces, the polyhedron is not closed"
+            )
         if not self._euler_check():
             get_main_logger().critical(
                 "V:{} E:{} F:{}".format(
